@@ -465,8 +465,70 @@ async fn compare(group: &e2::Group, store: &ModelStore, what: &str) -> Result<()
     Ok(())
 }
 
+/// Exhaustive small scope: every history of 1-4 requests of `c07::small_histories` (set / delete of keys {1,2} at four
+/// stamps of two origins through either source, each stamp once, purges anywhere) with no request or any one request hitting
+/// a storage failure. Words: [len, fault mask, slot x len].
+pub struct C02Small;
+
+pub fn small_space() -> Vec<Vec<u64>> {
+    let mut out = vec![];
+    for h in crate::c07::small_histories() {
+        if h.len() > 4 {
+            continue;
+        }
+        // no storage failure, or exactly one request failing
+        for mask in std::iter::once(0u64).chain((0..h.len()).map(|i| 1u64 << i)) {
+            let mut w = vec![h.len() as u64, mask];
+            w.extend(&h);
+            out.push(w);
+        }
+    }
+    out
+}
+
+impl Prop for C02Small {
+    type Case = Case;
+
+    fn id(&self) -> &'static str {
+        "C02"
+    }
+
+    fn part(&self) -> &'static str {
+        "small-scope-histories"
+    }
+
+    fn width(&self) -> usize {
+        6
+    }
+
+    fn shrink_budget(&self) -> usize {
+        200
+    }
+
+    fn gen(&self, src: &mut Src) -> Case {
+        let len = src.word().clamp(1, 4) as usize;
+        let mask = src.word();
+        let reqs = (0..len).map(|i| (crate::c07::small_req(src.word()), if (mask >> i) & 1 == 1 { Some(Fault::FailBefore) } else { None })).collect();
+        Case { reqs, glue: vec![false; len], write_delay: vec![] }
+    }
+
+    fn run(&self, case: &Case) -> Outcome {
+        C02.run(case)
+    }
+
+    fn describe(&self, case: &Case) -> Value {
+        C02.describe(case)
+    }
+
+    fn rule(&self) -> &'static str {
+        "exhaustive: every history of 1-4 requests on one keyspace (set / delete of keys {1,2} at four stamps of two origins, two of \
+         them more than a forgiveness period after another of the same origin, each stamp used at most once, either source; purges \
+         anywhere), none or any one of the requests hitting a storage failure; same oracle as set-vs-store after every request"
+    }
+}
+
 pub fn parts() -> Vec<Box<dyn DynPart>> {
-    vec![Box::new(Gen::new(C02, 300_000, 10_000_000))]
+    vec![Box::new(Gen::new(C02, 300_000, 10_000_000)), Box::new(Gen::listed(C02Small, small_space))]
 }
 
 // ---------------------------------------------------------------------------------------
